@@ -31,8 +31,11 @@ for d in sorted(os.listdir(S)):
         else:
             results[cid] = "no verdict"
     files = re.findall(r"^\+\+\+ b/(\S+)", open(os.path.join(p, "patch.diff")).read(), re.M)
+    if d.startswith("benign"):
+        continue
+    prop = "C" + d[1:] if d[0] in "DE" else d
     meta = {
-        "property_broken": d,
+        "property_broken": prop,
         "changed_files": files,
         "what_it_needs_to_manifest": am.strip()[:2500],
         "confirmed": {
@@ -46,8 +49,18 @@ for d in sorted(os.listdir(S)):
     }
     json.dump(meta, open(os.path.join(p, "meta.json"), "w"), indent=1)
     rows.append((d, files, results, demo_with and demo_without and tests and tests.group(2) == "0"))
+benign = []
+for d in sorted(os.listdir(S)):
+    p = os.path.join(S, d)
+    if os.path.isdir(p) and d.startswith("benign") and os.path.exists(os.path.join(p, "checks.txt")):
+        chk = open(os.path.join(p, "checks.txt")).read()
+        benign.append((d, chk.count("OK property"), chk.count("VIOLATION")))
 with open(os.path.join(S, "README.md"), "w") as fh:
     fh.write("# Seeded changes\n\nEach directory holds `patch.diff` (the change), `demo_test.rs` (the independent demonstration), `agent_meta.txt` (the author's description), `verify.txt` (confirmation run), `checks.txt` (our checks run against it) and `meta.json`. None of these changes is ever committed to /repo.\n\n| change | files | confirmed | checks and verdicts |\n|---|---|---|---|\n")
     for d, files, results, ok in rows:
         fh.write("| %s | %s | %s | %s |\n" % (d, ", ".join(os.path.basename(f) for f in files), "yes" if ok else "NO", "; ".join("%s: %s" % kv for kv in results.items())))
+with open(os.path.join(S, "README.md"), "a") as fh:
+    fh.write("\n## Behaviour-preserving rewrites (no alarm expected)\n\nEight refactorings written by an independent sub-agent (descriptions in `benign_README.txt`), each run against 13 checks:\n\n| rewrite | checks OK | violations |\n|---|---|---|\n")
+    for d, ok, vio in benign:
+        fh.write("| %s | %d | %d |\n" % (d, ok, vio))
 print(open(os.path.join(S, "README.md")).read())
